@@ -4,7 +4,7 @@
    formulas are the regenerated kernels of gen/G_coords.v.  `e` is the (unused)
    erf parameter of the instance. *)
 From Coq Require Import Reals ZArith List Lra SpecFloat.
-From Sky Require Import Num NumR G_coords M_Coords S_Coords P_Coords_Real P_Coords P_Coords_Rot P_Coords_Sky P_Coords_Astropy M_CoordsSF.
+From Sky Require Import Num NumR G_coords M_Coords S_Coords P_Coords_Real P_Coords P_Coords_Rot P_Coords_Sky P_Coords_Astropy M_CoordsSF M_CoordsPdf P_CoordsPdf.
 Open Scope R_scope.
 
 (* ------------------------------------------------------------ angular_separation *)
@@ -400,6 +400,32 @@ Theorem C19_pipeline_psi : forall (e : R -> R) src_dec src_ra psi t f,
           src_ra src_dec (Some f) = Rmax psi f.
 Proof. exact pipeline_psi. Qed.
 Print Assumptions C19_pipeline_psi.
+
+(* ------------------------------------------------------------ extension: the value of the spatial signal PDF *)
+(* GaussianPSFPointLikeSourceSignalSpatialPDF.calculate_pd for one (source, event)
+   pair (kernels spdf_sigma_sq, spdf_pd + the pinned angular_separation call): the
+   density is the Gaussian of the angle between source and event, so it depends on
+   the two directions only through that angle *)
+Theorem C19_signalpdf_value : forall (e : R -> R) src_ra src_dec ra dec sigma,
+  sigma <> 0 ->
+  signalpdf_pd (RNum e) src_ra src_dec ra dec sigma
+  = / (2 * PI * (sigma * sigma))
+    * exp (- (acos (vdot (dirv src_ra src_dec) (dirv ra dec)) * acos (vdot (dirv src_ra src_dec) (dirv ra dec)))
+           / (2 * (sigma * sigma))).
+Proof. exact signalpdf_pd_R. Qed.
+Print Assumptions C19_signalpdf_value.
+
+(* strictly positive, never above the peak 1/(2 pi sigma^2), which is attained on the source *)
+Theorem C19_signalpdf_bounds : forall (e : R -> R) src_ra src_dec ra dec sigma,
+  sigma <> 0 ->
+  0 < signalpdf_pd (RNum e) src_ra src_dec ra dec sigma <= / (2 * PI * (sigma * sigma))
+  /\ signalpdf_pd (RNum e) src_ra src_dec src_ra src_dec sigma = / (2 * PI * (sigma * sigma)).
+Proof. exact signalpdf_pd_bounds. Qed.
+Print Assumptions C19_signalpdf_bounds.
+
+Example C19_instance_signalpdf : forall e : R -> R,
+  signalpdf_pd (RNum e) 1 (1 / 2) 1 (1 / 2) 2 = / (2 * PI * (2 * 2)).
+Proof. intros e. apply (C19_signalpdf_bounds e 1 (1 / 2) 1 (1 / 2) 2). lra. Qed.
 
 (* ------------------------------------------------------------ the remaining guards are needed *)
 Theorem C19_azi_ra_involution_guard_needed : forall (e : R -> R) mjd,
